@@ -67,6 +67,11 @@ struct AFont {
     /// all selectors of the cmap14 subtable
     selectors: Vec<u32>,
     colr: Option<Vec<Vec<u32>>>,
+    /// harness-only (not part of the Coq term): every format-4 subtable of the font lists exactly the BMP part of
+    /// `cmap`, so that the subset's format-4 subtables can be predicted from the (char, new gid) list
+    f4_same: bool,
+    /// chars mapped identically by ALL format-4 subtables (empty if there is none)
+    f4_common: BTreeMap<u32, u32>,
 }
 
 fn h40(b: &[u8]) -> u64 {
@@ -213,7 +218,15 @@ fn abstract_font(font: &FontRef) -> AFont {
             })
             .collect()
     });
-    AFont { n, glyphs, has_hmtx, long, lsbs, cmap, cmap_ok, uvs, selectors, colr }
+    let f4 = cmap4_lists(font);
+    let bmp: Vec<(u32, u32)> = cmap.iter().cloned().filter(|p| p.0 < 0x10000).collect();
+    let f4_same = f4.iter().all(|l| *l == bmp) && bmp.iter().all(|p| p.1 != 0);
+    let mut f4_common: BTreeMap<u32, u32> = f4.first().map(|l| l.iter().cloned().collect()).unwrap_or_default();
+    for l in f4.iter().skip(1) {
+        let m: BTreeMap<u32, u32> = l.iter().cloned().collect();
+        f4_common.retain(|c, g| m.get(c) == Some(g));
+    }
+    AFont { n, glyphs, has_hmtx, long, lsbs, cmap, cmap_ok, uvs, selectors, colr, f4_same, f4_common }
 }
 
 fn coq_glyph(g: &AG) -> String {
@@ -309,6 +322,9 @@ struct Obs {
     /// defective there: finding C17:cmap4-id-range-offset-shared-base) - the model then compares the mapped
     /// characters only
     cmap4_multi: bool,
+    /// what the subset's format-4 subtables say (read through Cmap4 itself, not through Charmap): the common
+    /// list if they all agree, a sentinel otherwise; [] when there is no format-4 subtable
+    cmap4: Vec<(u32, u32)>,
 }
 
 fn observe(bytes: &[u8]) -> Option<Obs> {
@@ -331,10 +347,16 @@ fn observe(bytes: &[u8]) -> Option<Obs> {
         }
         _ => None,
     };
-    Some(Obs { num_glyphs, glyphs, hmtx, cmap: cmap_pairs(&font), cmap4_multi: cmap4_offset_segments(&font) >= 2 })
+    let f4 = cmap4_lists(&font);
+    let cmap4 = match f4.first() {
+        None => vec![],
+        Some(l) if f4.iter().all(|x| x == l) => l.clone(),
+        Some(_) => vec![(0xFFFF_FFFF, 0xFFFF_FFFF)],
+    };
+    Some(Obs { num_glyphs, glyphs, hmtx, cmap: cmap_pairs(&font), cmap4_multi: cmap4_offset_segments(&font) >= 2, cmap4 })
 }
 
-fn coq_obs(r: &Result<Vec<u8>, String>, obs: &Option<Obs>) -> String {
+fn coq_obs(r: &Result<Vec<u8>, String>, obs: &Option<Obs>, f4_same: bool) -> String {
     match (r, obs) {
         (Err(e), _) if e.starts_with("panic") => "OPanic".into(),
         (Err(_), _) => "OErr".into(),
@@ -342,7 +364,8 @@ fn coq_obs(r: &Result<Vec<u8>, String>, obs: &Option<Obs>) -> String {
         (Ok(_), Some(o)) => {
             let g = copt(o.glyphs.as_ref().map(|v| clist(v.iter(), |g| coq_glyph(g))));
             let h = copt(o.hmtx.as_ref().map(|(k, v)| format!("({}, {})", k, coq_pairs(v))));
-            format!("OOut {} {} {} {} {}", o.num_glyphs, g, h, coq_pairs(&o.cmap), cbool(o.cmap4_multi))
+            let c4 = copt(f4_same.then(|| coq_pairs(&o.cmap4)));
+            format!("OOut {} {} {} {} {} {}", o.num_glyphs, g, h, coq_pairs(&o.cmap), cbool(o.cmap4_multi), c4)
         }
     }
 }
@@ -514,6 +537,19 @@ fn kept_raw_glyf_bytes(orig: &FontRef, spec: &BTreeSet<u32>) -> usize {
             _ => 0,
         })
         .sum()
+}
+
+/// the mappings of every format-4 subtable, read through the subtable itself (Cmap4::iter)
+fn cmap4_lists(font: &FontRef) -> Vec<Vec<(u32, u32)>> {
+    let Ok(cm) = font.cmap() else { return vec![] };
+    let mut v = vec![];
+    for rec in cm.encoding_records() {
+        if let Ok(CmapSubtable::Format4(c4)) = rec.subtable(cm.offset_data()) {
+            // a mapping to glyph 0 means "unmapped" (the 0xFFFF terminator segment always yields one)
+            v.push(c4.iter().map(|(c, g)| (c, g.to_u32())).filter(|p| p.1 != 0).collect());
+        }
+    }
+    v
 }
 
 /// number of format-4 segments that go through the glyph id array (idRangeOffset != 0), max over subtables
@@ -746,6 +782,53 @@ fn oracle(cx: &OracleCtx, req: &Req, res: &Result<Vec<u8>, String>, st: &mut Sta
     let rg: BTreeSet<u32> = req.gids.iter().cloned().collect();
     let ru: BTreeSet<u32> = req.unis.iter().cloned().collect();
     let ocm: BTreeMap<u32, u32> = af.cmap.iter().cloned().collect();
+    // first through every format-4 subtable of the subset read directly (Charmap prefers a format-12
+    // subtable when there is one and would hide a wrong format-4 encoding), then through Charmap
+    if let Ok(scmap) = subf.cmap() {
+        for rec in scmap.encoding_records() {
+            let Ok(CmapSubtable::Format4(c4)) = rec.subtable(scmap.offset_data()) else { continue };
+            st.count("oracle.cmap4_subtables_checked");
+            let mut bad: Option<(u32, serde_json::Value)> = None;
+            for c in ru.iter().filter(|c| **c < 0x10000) {
+                let Some(g) = af.f4_common.get(c) else { continue };
+                if (*g as usize) >= af.n || !spec.contains(g) {
+                    continue;
+                }
+                st.evaluations += 1;
+                let got = c4.map_codepoint(*c).map(|x| x.to_u32());
+                if got != Some(newid(*g)) && !(*g == 0 && got.is_none()) {
+                    bad = Some((*c, json!({"char": c, "orig_gid": g, "expected": newid(*g), "got_through_format4": got})));
+                    break;
+                }
+            }
+            if bad.is_none() {
+                for (c, ng) in c4.iter().filter(|p| p.1.to_u32() != 0) {
+                    st.evaluations += 1;
+                    let og = af.f4_common.get(&c).or(ocm.get(&c));
+                    let allowed = ru.contains(&c) || og.map(|g| rg.contains(g)).unwrap_or(false);
+                    let right = og.map(|g| spec.contains(g) && newid(*g) == ng.to_u32()).unwrap_or(false);
+                    if !allowed || !right {
+                        bad = Some((c, json!({"char": c, "subset_gid_through_format4": ng.to_u32(), "orig_gid": og})));
+                        break;
+                    }
+                }
+            }
+            if let Some((c, detail)) = bad {
+                // the known class only when the subset's cmap4 really has >= 2 range-offset segments and the
+                // character sits in a later one; anything else is a different defect
+                if in_later_offset_segment(&subf, c) {
+                    report(st, Some("C17:cmap4-id-range-offset-shared-base"), "format-4 subtable of the subset maps a character to the wrong glyph", detail);
+                } else {
+                    let first_cp = req.unis.first().cloned().unwrap_or(c);
+                    let key = format!("cmap4:wrong-glyph:{}:{:#x}", cx.name, first_cp);
+                    st.count("oracle.fail.cmap4-wrong-glyph");
+                    st.oracle_failure(json!({"key": key, "font": cx.name, "label": req.label, "gids": req.gids.iter().take(40).collect::<Vec<_>>(), "unicodes": req.unis.iter().take(40).collect::<Vec<_>>(), "flags": req.flags,
+                        "what": "format-4 subtable of the subset maps a character to the wrong glyph", "detail": detail}));
+                }
+                return;
+            }
+        }
+    }
     let scm = subf.charmap();
     for c in &ru {
         if let Some(g) = ocm.get(c) {
@@ -1143,6 +1226,81 @@ fn requests(af: &AFont, rng: &mut Rng, count: usize) -> Vec<Req> {
     v
 }
 
+/// Requests made of contiguous code-point blocks of the font's cmap (the shapes the format-4 range writer
+/// `to_ranges` / `commit_current_range` has to split): `nrand` random blocks of 3..40 code points and `neng`
+/// engineered ones - two or more short glyph-id runs followed by a run of >= 4 consecutive glyph ids - each under
+/// default flags and RETAIN_GIDS.
+fn block_requests(af: &AFont, rng: &mut Rng, nrand: usize, neng: usize) -> Vec<Req> {
+    let mut cm: Vec<(u32, u32)> = af.cmap.iter().cloned().filter(|p| p.0 < 0xFFFF).collect();
+    cm.sort();
+    cm.dedup_by_key(|p| p.0);
+    // maximal runs of consecutive code points, as index ranges into cm
+    let mut runs: Vec<(usize, usize)> = vec![];
+    let mut i = 0;
+    while i < cm.len() {
+        let mut j = i + 1;
+        while j < cm.len() && cm[j].0 == cm[j - 1].0 + 1 {
+            j += 1;
+        }
+        if j - i >= 3 {
+            runs.push((i, j));
+        }
+        i = j;
+    }
+    let mut out = vec![];
+    let mut push = |out: &mut Vec<Req>, label: &'static str, a: usize, b: usize| {
+        let unis: Vec<u32> = cm[a..b].iter().map(|p| p.0).collect();
+        for flags in [0u16, F_RETAIN_GIDS] {
+            out.push(Req { gids: vec![], unis: unis.clone(), flags, label });
+        }
+    };
+    if runs.is_empty() {
+        return out;
+    }
+    for _ in 0..nrand {
+        let (a, b) = *rng.pick(&runs);
+        let len = rng.range(3, ((b - a) as i64).min(40)) as usize;
+        let start = a + rng.below((b - a - len) as u64 + 1) as usize;
+        push(&mut out, "cp-block", start, start + len);
+    }
+    // engineered windows: positions where >= 2 glyph-id runs of length <= 3 are followed by a run of length >= 4
+    let mut cands: Vec<(usize, usize)> = vec![];
+    for (a, b) in &runs {
+        // glyph-id runs inside this code-point run
+        let mut gr: Vec<(usize, usize)> = vec![];
+        let mut i = *a;
+        while i < *b {
+            let mut j = i + 1;
+            while j < *b && cm[j].1 == cm[j - 1].1 + 1 {
+                j += 1;
+            }
+            gr.push((i, j));
+            i = j;
+        }
+        for k in 0..gr.len() {
+            let mut m = k;
+            while m < gr.len() && gr[m].1 - gr[m].0 <= 3 {
+                m += 1;
+            }
+            if m - k >= 2 && m < gr.len() && gr[m].1 - gr[m].0 >= 4 {
+                // from the k-th short run (also from later ones, as long as two short runs remain) to the long run
+                for s0 in k..=(m - 2) {
+                    cands.push((gr[s0].0, gr[m].1.min(gr[m].0 + 9)));
+                }
+            }
+        }
+    }
+    if !cands.is_empty() {
+        let first = cands[0];
+        push(&mut out, "cp-block-engineered", first.0, first.1);
+        rng.shuffle(&mut cands);
+        for (a, b) in cands.into_iter().take(neng.saturating_sub(1)) {
+            push(&mut out, "cp-block-engineered", a, b);
+        }
+    }
+    out
+}
+
 // ------------------------------------------------------------------------------------------------
 // shard writer (same shape as vh::CaseWriter, plus per-shard font definitions so that the abstract font
 // is written once per shard and not once per case)
@@ -1299,7 +1457,12 @@ fn main() {
     let mut run_font = |name: &str, bytes: &[u8], nreq: usize, model_cases: usize, st: &mut Stats, sh: &mut Shards, rng: &mut Rng| {
         let Ok(font) = FontRef::new(bytes) else { return };
         let af = abstract_font(&font);
-        let reqs = requests(&af, rng, nreq);
+        let mut reqs = requests(&af, rng, nreq);
+        let n_plain = reqs.len();
+        if !name.starts_with("syn") {
+            let k = if thorough { 24 } else { 6 };
+            reqs.extend(block_requests(&af, rng, k, k));
+        }
         let model_font_ok = af.n <= 1500 && af.cmap.len() <= 4000 && af.cmap.windows(2).all(|w| w[0].0 < w[1].0);
         if !model_font_ok {
             st.count("model.skipped_font_too_large");
@@ -1354,12 +1517,12 @@ fn main() {
                 }
             }
             let small = kept_raw_glyf_bytes(&font, &spec_closure(&af, req)) < 65536;
-            if i < model_cases && model_font_ok && !small {
+            if (i < model_cases || i >= n_plain) && model_font_ok && !small {
                 st.count("model.skipped_glyf_over_64k");
             }
-            if i < model_cases && model_font_ok && small {
+            if (i < model_cases || i >= n_plain) && model_font_ok && small {
                 let w = obs.as_ref().map(|o| o.num_glyphs + o.cmap.len() / 4).unwrap_or(1) + req.gids.len() / 4 + req.unis.len() / 4 + 4;
-                sh.push(fi, req, coq_obs(&res, &obs), w);
+                sh.push(fi, req, coq_obs(&res, &obs, af.f4_same), w);
             }
             st.sample(json!({"font": name, "request": req.label, "gids": req.gids.iter().take(8).collect::<Vec<_>>(), "unicodes": req.unis.iter().take(8).collect::<Vec<_>>(), "flags": req.flags,
                 "subset_num_glyphs": obs.as_ref().map(|o| o.num_glyphs), "impl": format!("{:?}", res.as_ref().map(|b| b.len()))}));
@@ -1408,7 +1571,7 @@ fn main() {
             st.evaluations += 1;
             st.count("request.f7-witness");
             let obs = res.as_ref().ok().and_then(|b| observe(b));
-            sh.push(fi, &req, coq_obs(&res, &obs), af.n);
+            sh.push(fi, &req, coq_obs(&res, &obs, af.f4_same), af.n);
             oracle(&cx, &req, &res, &mut st, &mut rng, false, 400);
         }
     }
